@@ -244,6 +244,10 @@ def program_from_shape(forest, pid):
                 benches.append({"mods": mods, "raw": name, "name": name, "file": "src/a.rs", "line": line[0],
                                 "col": 1, "kind": "plain", "opts": {"sample_count": 1, "sample_size": 1},
                                 "has_opts": True, "cost": 100})
+                # every third benchmark runs with two thread counts: `t=N` rows one level
+                # below short names (the widest labels of such a tree)
+                if len(benches) % 3 == 2:
+                    benches[-1]["opts"]["threads"] = [1, 2] if len(benches) % 2 else [0, 1]
             else:
                 walk(sub, mods + [name])
     for r, tree in enumerate(forest):
@@ -512,17 +516,24 @@ def lex_stdout(stdout, has_columns):
             continue
         cells = []
         head = raw
+        seps = []
         if has_columns:
             toks = raw.split("│")
             if len(toks) >= 6:
                 cells = [c.strip() for c in toks[-5:]]
                 head = "│".join(toks[:-5])
+                # positions (in characters, from 0) of the five column separators
+                pos = len(head)
+                for t in toks[-5:]:
+                    seps.append(pos)
+                    pos += 1 + len(t)
         prefix, branch, rest = strip_prefix(head)
         named = branch != "none" or not (raw.startswith(" ") or raw.startswith("│"))
         if not named:
             c1 = rest.lstrip("│").strip()
             allc = [c1] + cells
-            recs.append({"t": "cont", "groups": prefix, "cells": allc, "cells_cp": [cp(c) for c in allc], "raw_cp": cp(raw)})
+            recs.append({"t": "cont", "groups": prefix, "cells": allc, "cells_cp": [cp(c) for c in allc], "raw_cp": cp(raw),
+                         "seps": seps, "c1_at": (len(head.rstrip()) - len(c1)) if (c1 and seps) else -1})
             continue
         if "  " in rest:
             name, tail = rest.split("  ", 1)
@@ -531,7 +542,8 @@ def lex_stdout(stdout, has_columns):
             name, c1 = rest.rstrip(), ""
         allc = ([c1] + cells) if (has_columns or c1) else []
         recs.append({"t": "row", "prefix": prefix, "branch": branch, "name": name, "name_cp": cp(name),
-                     "cells": allc, "cells_cp": [cp(c) for c in allc], "raw_cp": cp(raw)})
+                     "cells": allc, "cells_cp": [cp(c) for c in allc], "raw_cp": cp(raw),
+                     "seps": seps, "c1_at": (len(head.rstrip()) - len(c1)) if (c1 and seps) else -1})
     while recs and recs[-1]["t"] == "empty":
         recs.pop()
     return recs
